@@ -21,6 +21,8 @@ def run(ctx):
     argument_triple(ctx)
     alias_triple(ctx)
     fresh_index(ctx)
+    import cachewriters
+    cachewriters.check(ctx, "R02.9")
     export_triple(ctx)
     embed_once(ctx)
     name_section(ctx)
